@@ -485,7 +485,7 @@ def find_vertices(observed_length, bio_filter, verbose=False):
 
     for vertex_index in range(len(vertices)):
         dna_sequence = number_to_dna(decimal_number=vertex_index, dna_length=observed_length)
-        vertices[vertex_index] = bio_filter.valid(dna_sequence=dna_sequence)
+        vertices[vertex_index] = bio_filter.valid(dna_sequence)
 
         if verbose:
             monitor(vertex_index + 1, len(vertices), extra={"valid": sum(vertices[: vertex_index + 1])})
